@@ -5,5 +5,5 @@ CONSTANTS
   IntAtoms = {"a"}
   BoolAtoms = {"u"}
   Emit = TRUE
-  CombSizes = {1, 2, 10, 100, 400, 900}
+  CombSizes = {1, 2, 10, 100, 300, 450}
   Forms = {"fld", "tix", "chain", "call"}
